@@ -218,3 +218,28 @@ Proof.
   rewrite E, Hdec. rewrite bind_keys_skip; [reflexivity|].
   intros j Hj. destruct (existsb (Nat.eqb j) ph) eqn:E2; [|reflexivity]. apply Hph in E2. unfold pos in E2. lia.
 Qed.
+
+(* the selection is decided by the last selecting event, whatever came before, and persists
+   over events that select nothing (incl. refused SET SHARDs) *)
+Definition quiet_op (n : N) (o : selop) : Prop := o = SelNone \/ exists v, o = SelShard v /\ (n <= v)%N.
+
+Lemma sel_quiet part n quiet : Forall (quiet_op n) quiet -> forall c, sel_run part n c quiet = c.
+Proof.
+  unfold sel_run. induction 1 as [|o r Ho Hr IH]; intros c; cbn [fold_left]; [reflexivity|].
+  rewrite IH. destruct Ho as [->|(v & -> & Hv)]; cbn [sel_step]; [reflexivity|].
+  rewrite set_shard_refused by exact Hv. reflexivity.
+Qed.
+
+Lemma sel_last_key part n cur ops k quiet : Forall (quiet_op n) quiet ->
+  sel_run part n cur (ops ++ SelKey k :: quiet) = Some (part k).
+Proof.
+  intros Hq. unfold sel_run. rewrite fold_left_app. cbn [fold_left sel_step].
+  apply (sel_quiet part n quiet Hq).
+Qed.
+
+Lemma sel_last_shard part n cur ops v quiet : (v < n)%N -> Forall (quiet_op n) quiet ->
+  sel_run part n cur (ops ++ SelShard v :: quiet) = Some v.
+Proof.
+  intros Hv Hq. unfold sel_run. rewrite fold_left_app. cbn [fold_left sel_step].
+  rewrite set_shard_accepted by exact Hv. cbn [fst]. apply (sel_quiet part n quiet Hq).
+Qed.
